@@ -10,6 +10,12 @@ PROP = dict(
           "persisted local height must equal the number of revocations handed out; restored update logs must hold "
           "every signed update a commitment still needs, nothing unsigned, and the signed HTLC counters; forwarding "
           "packages must equal the revocations received. Cuts make reloaded channels continue under all C01 oracles. "
+          "Writes by other subsystems: every side also has a second handle of the channel record that was loaded when "
+          "the channel was created and is never refreshed (what the funding manager and the chain watcher hold); through "
+          "it MarkCloseConfirmationHeight / ResetCloseConfirmationHeight are called at generated points on every channel "
+          "and, on the third of the channels that carry the zero-conf bits, MarkConfirmationHeight and MarkRealScid (then "
+          "the link's handle is refreshed from disk as lnd does); such a write must change nothing but its own field: all "
+          "oracles above apply to what is on disk afterwards. "
           "Non-trivial = a schedule in which a crash point was checked with a pending remote commitment and with "
           "unsigned-acked or remote-unsigned-local updates. counters.crash_points_checked is the number of (side, "
           "instant) reloads verified. Distinct = distinct (parameters, trace)."),
